@@ -42,7 +42,8 @@ fn gen_exchange(r: &mut Rng) -> Exchange {
     let status = *r.pick(&[200u16, 200, 201, 204, 301, 302, 404, 500, 304]);
     let rv = if r.chance(1, 5) { "HTTP/1.0" } else { "HTTP/1.1" };
     let head_start = stream.len();
-    let mut head = format!("{} {} Reason\r\nX-One: 1\r\n", rv, status).into_bytes();
+    // one head in five carries no field beyond what the framing needs (with no framing at all: a bare status line)
+    let mut head = format!("{} {} Reason\r\n{}", rv, status, if r.chance(1, 5) { "" } else { "X-One: 1\r\n" }).into_bytes();
     if r.chance(1, 5) { head.extend_from_slice(b"Connection: close\r\n"); }
     let body: Vec<u8> = (0..if r.chance(1, 6) { 0 } else { r.range(0, 120) }).map(|_| *r.pick(b"ab\r\n0;xHTTP/1. ")).collect();
     // 0/2: Content-Length, 1: chunked (HTTP/1.1), 3: no framing at all = close-delimited (then nothing follows)
@@ -55,7 +56,10 @@ fn gen_exchange(r: &mut Rng) -> Exchange {
         1 if rv == "HTTP/1.1" => {
             head.extend_from_slice(b"Transfer-Encoding: chunked\r\n");
             let mut off = 0;
-            while off < body.len() { let n = 1 + r.below((body.len() - off).min(40)); coded.extend_from_slice(format!("{:X}\r\n", n).as_bytes()); coded.extend_from_slice(&body[off..off + n]); coded.extend_from_slice(b"\r\n"); off += n; }
+            while off < body.len() { let n = 1 + r.below((body.len() - off).min(40));
+                let size = format!("{:X}", n);
+                let ext = match r.below(4) { 0 => format!(";name={}", "abcdefghijklmnopq".chars().take(20 - size.len() - 6).collect::<String>()), 1 => ";x".to_string(), _ => String::new() };
+                coded.extend_from_slice(format!("{}{}\r\n", size, ext).as_bytes()); coded.extend_from_slice(&body[off..off + n]); coded.extend_from_slice(b"\r\n"); off += n; }
             coded.extend_from_slice(b"0\r\n");
             if r.chance(1, 3) { coded.extend_from_slice(b"Trailer: x\r\n"); }
             coded.extend_from_slice(b"\r\n");
@@ -383,6 +387,56 @@ pub fn c01(cx: &mut Ctx) {
             cx.meta("payload -");
             cx.meta("callapi");
             run_call_schedule(cx, &ex, &mut r, s);
+        }
+    }
+    // a 100 that comes late (the caller gave up and sent the body) and in two pieces, cut at every position; the
+    // final response has a bare head / a short head, with every framing
+    for (k, fin) in ["HTTP/1.1 200 OK\r\n\r\nclose-delimited", "HTTP/1.1 200 OK\r\nContent-Length: 2\r\n\r\nok", "HTTP/1.0 404 N\r\n\r\n", "HTTP/1.1 204\r\n\r\n", "HTTP/1.1 200 OK\r\nTransfer-Encoding: chunked\r\n\r\n2\r\nok\r\n0\r\n\r\n"].iter().enumerate() {
+        let interim: &[u8] = if k % 2 == 0 { b"HTTP/1.1 100 Continue\r\n\r\n" } else { b"HTTP/1.1 100 Go on then, please\r\n\r\n" };
+        let close = k == 0 || k == 2;
+        let mut stream = interim.to_vec();
+        stream.extend_from_slice(fin.as_bytes());
+        let msglen = stream.len();
+        if !close { stream.extend_from_slice(NEXT); }
+        let payload = b"hello".to_vec();
+        for cut in 0..=interim.len() + 3 {
+            cx.case("xlate");
+            cx.meta(&format!("group late{}", k));
+            cx.meta(&format!("msglen {}", msglen));
+            cx.meta(&format!("payload {}", hx(&payload)));
+            if cx.rec.new_flow(&format!("POST HTTP/1.1 http://a.test/path?q=1 2 x-trace 616263 expect {}", hx(b"100-continue"))) != "ok" { continue; }
+            cx.op("proceed"); cx.op("write 4096"); cx.op("proceed");
+            if cx.rec.state() != "await100" { continue; }
+            cx.op("proceed");
+            if cx.rec.state() != "sendBody" { continue; }
+            cx.op("chunked?");
+            cx.op(&format!("bwrite {} 100", hx(&payload))); cx.op("bwrite - 100"); cx.op("proceed");
+            let mut soff = 0usize;
+            let mut arrived = cut;
+            let mut guard = 0;
+            while cx.rec.state() == "recvResponse" && guard < 12 {
+                guard += 1;
+                let res = cx.op(&format!("resp {}", hx(&stream[soff..arrived.max(soff)])));
+                let p: Vec<&str> = res.split(' ').collect();
+                if p[0] != "resp" { break; }
+                let n: usize = p[1].parse().unwrap_or(0);
+                soff += n;
+                if p[2] != "none" { cx.op("proceed"); break; }
+                if n == 0 { if arrived >= stream.len() { break; } arrived = stream.len(); }
+            }
+            guard = 0;
+            while cx.rec.state() == "recvBody" && guard < 12 {
+                guard += 1;
+                if cx.op("canproceed") == "bool true" && (!close || soff >= msglen) { cx.op("proceed"); break; }
+                let res = cx.op(&format!("bread {} 100", hx(&stream[soff..])));
+                let p: Vec<&str> = res.split(' ').collect();
+                if p[0] != "bytes" { break; }
+                let n: usize = p[1].parse().unwrap_or(0);
+                soff += n;
+                if n == 0 && p[2] == "-" { if cx.op("canproceed") == "bool true" { cx.op("proceed"); } break; }
+            }
+            if cx.rec.state() == "cleanup" { cx.op("close?"); cx.op("reason"); }
+            cx.meta(&format!("consumed {}", soff));
         }
     }
     for g in 0..groups {
